@@ -137,7 +137,7 @@ def run_case(case):
             # file legitimately recompiles it under Ninja, whatever bfg9000 wrote.
             before = len(cands)
             cands = [f for f in cands if not (f.startswith('B:') and
-                     m.steps[m.producer[f]]['kind'] == 'compile')]
+                     m.steps[m.producer[f]]['kind'] in ('compile', 'pch'))]
             if before != len(cands):
                 res.exclude('ninja: touched compile output (deps=gcc staleness rule)',
                             before - len(cands))
